@@ -11,23 +11,40 @@ open GoRes.Pool
 before `Shutdown` (it is refused under the lock) -/
 theorem closed_stays_closed (s s' : St) (a : Act) (hs : step s a = some s') (hq : s.wq = none)
     (ha : ∀ n, a ≠ .serve n) : s'.wq = none := by
-  sorry
+  cases step_Step hs with
+  | serve n => exact absurd rfl (ha n)
+  | lockAppend _ _ _ _ q _ hq' | lockNew _ _ _ _ q _ hq' => rw [hq] at hq'; cases hq'
+  | wStart | wWake | wSpurious => rw [relook_of_closed _ hq]; rfl
+  | doneLast => rw [relook_of_closed _ (by exact hq)]; rfl
+  | closeLock => rfl
+  | _ => exact hq
 
 /-- a stopped service has a nil queue and no live worker -/
 theorem stopped_is_quiet (acts : List Act) (s : St) (h : run init acts = some s) (hp : s.phase = .stopped) :
     s.wq = none ∧ s.workers.all (· = .exited) = true := by
-  sorry
+  exact (Inv.reachable h).quiet hp
 
 /-- **drained**: `Shutdown` returns (`shutdownDone`) only when every worker has exited, hence
 when no callback is running -/
 theorem drained (s s' : St) (hs : step s .shutdownDone = some s') :
     runningNow s = [] ∧ s'.phase = .stopped ∧ runningNow s' = [] := by
-  sorry
+  cases step_Step hs with
+  | shutdownDone _ _ hw =>
+    have : runningNow s = [] := by
+      simp only [runningNow, List.flatMap_eq_nil_iff]
+      intro ws hws
+      simp at hw
+      rw [hw ws hws]; rfl
+    exact ⟨this, rfl, this⟩
 
 /-- **no callback starts afterwards**: once all workers have exited nothing starts until `Serve` -/
 theorem no_start_after_exit (s s' : St) (a : Act) (hs : step s a = some s')
     (hw : s.workers.all (· = .exited) = true) (ha : ∀ n, a ≠ .serve n) : s'.started = s.started := by
-  sorry
+  cases step_Step hs with
+  | serve n => exact absurd rfl (ha n)
+  | wStart _ h | wWake _ h | wSpurious _ h | doneNext _ _ _ _ _ h | doneLast _ _ _ h =>
+    cases all_exited_getElem? hw h
+  | _ => rfl
 
 /-- remaining own steps of a worker until it has exited, once the queue is closed -/
 def remaining : WState → Nat
@@ -38,17 +55,64 @@ def remaining : WState → Nat
 
 def totalRemaining (s : St) : Nat := (s.workers.map remaining).sum
 
+theorem totalRemaining_set (s : St) (i : Nat) (old ws : WState) (wq rw) (h : s.workers[i]? = some old) :
+    totalRemaining (setWorker s i ws wq rw) + remaining old = totalRemaining s + remaining ws :=
+  sum_map_set remaining s.workers i old ws h
+
 /-- **bounded exit**: with the queue closed, no step of anybody increases the number of steps the
 workers still need … -/
 theorem exit_measure_nonincreasing (s s' : St) (a : Act) (hs : step s a = some s') (hq : s.wq = none)
     (ha : ∀ n, a ≠ .serve n) : totalRemaining s' ≤ totalRemaining s := by
-  sorry
+  cases step_Step hs with
+  | serve n => exact absurd rfl (ha n)
+  | lockAppend _ _ _ _ q _ hq' | lockNew _ _ _ _ q _ hq' => rw [hq] at hq'; cases hq'
+  | wStart _ h | wWake _ h | wSpurious _ h =>
+    rw [relook_of_closed _ hq]
+    have := totalRemaining_set s _ _ .exited none s.rwork h
+    simp only [remaining] at this; omega
+  | doneNext i w cb f fs h hp =>
+    have := totalRemaining_set { s with finished := s.finished ++ [cb] } _ _ (.running { w with pending := fs } f) s.wq s.rwork h
+    simp only [remaining, hp, List.length_cons] at this
+    exact Nat.le_of_lt_succ (by simp only [next, totalRemaining] at *; omega)
+  | doneLast i w cb h hp =>
+    rw [relook_of_closed _ (by exact hq)]
+    have := sum_map_set remaining s.workers i _ .exited h
+    simp only [totalRemaining, setWorker_workers, finish, List.set_set]
+    simp only [remaining] at this; omega
+  | signalSome _ _ _ _ i _ hi =>
+    have hi' := List.find?_some hi
+    simp only [decide_eq_true_eq] at hi'
+    have := sum_map_set remaining s.workers i _ (.waiting true) hi'
+    simp only [totalRemaining]
+    simp only [remaining] at this; omega
+  | closeBroadcast =>
+    apply Nat.le_of_eq
+    simp only [totalRemaining, broadcast, List.map_map]
+    congr 1
+    apply List.map_congr_left
+    intro ws _
+    cases ws <;> rfl
+  | _ => exact Nat.le_refl _
 
 /-- … every own step of a worker strictly decreases it … -/
 theorem own_step_decreases (s s' : St) (i : Nat) (a : Act) (hq : s.wq = none)
     (ha : a = .wStart i ∨ a = .wWake i ∨ a = .wDone i ∨ a = .wSpurious i) (hs : step s a = some s') :
     totalRemaining s' < totalRemaining s := by
-  sorry
+  cases step_Step hs with
+  | wStart _ h | wWake _ h | wSpurious _ h =>
+    rw [relook_of_closed _ hq]
+    have := totalRemaining_set s _ _ .exited none s.rwork h
+    simp only [remaining] at this; omega
+  | doneNext i w cb f fs h hp =>
+    have := totalRemaining_set { s with finished := s.finished ++ [cb] } _ _ (.running { w with pending := fs } f) s.wq s.rwork h
+    simp only [remaining, hp, List.length_cons] at this
+    simp only [next, totalRemaining] at *; omega
+  | doneLast i w cb h hp =>
+    rw [relook_of_closed _ (by exact hq)]
+    have := sum_map_set remaining s.workers i _ .exited h
+    simp only [totalRemaining, setWorker_workers, finish, List.set_set]
+    simp only [remaining] at this; omega
+  | _ => simp at ha
 
 /-- … and after the broadcast no worker is blocked: every worker that has not exited has an
 enabled step (idle → start, signalled → wake, running → its callback returns), and none ever
@@ -56,23 +120,71 @@ waits unsignalled again -/
 theorem no_worker_blocked (s : St) (hq : s.wq = none) (hb : ∀ ws ∈ s.workers, ws ≠ .waiting false)
     (i : Nat) (ws : WState) (hi : s.workers[i]? = some ws) (hne : ws ≠ .exited) :
     (∃ s', step s (.wStart i) = some s') ∨ (∃ s', step s (.wWake i) = some s') ∨ (∃ s', step s (.wDone i) = some s') := by
-  sorry
+  have _ := hq
+  cases ws with
+  | idle => left; rw [step_wStart, if_pos hi]; exact ⟨_, rfl⟩
+  | waiting b =>
+    cases b with
+    | false => exact absurd rfl (hb _ (List.mem_of_getElem? hi))
+    | true => right; left; rw [step_wWake, if_pos hi]; exact ⟨_, rfl⟩
+  | running w c =>
+    right; right
+    simp only [step, hi]
+    split <;> exact ⟨_, rfl⟩
+  | exited => exact absurd rfl hne
 
 theorem broadcast_clears_waiting (s s' : St) (hs : step s .closeBroadcast = some s') :
     ∀ ws ∈ s'.workers, ws ≠ .waiting false := by
-  sorry
+  cases step_Step hs with
+  | closeBroadcast =>
+    intro ws hws
+    simp only [broadcast, List.mem_map] at hws
+    obtain ⟨x, _, rfl⟩ := hws
+    cases x <;> simp
 
 theorem unsignalled_never_returns (s s' : St) (a : Act) (hs : step s a = some s') (hq : s.wq = none)
     (ha : ∀ n, a ≠ .serve n) (hb : ∀ ws ∈ s.workers, ws ≠ .waiting false) :
     ∀ ws ∈ s'.workers, ws ≠ .waiting false := by
-  sorry
+  cases step_Step hs with
+  | serve n => exact absurd rfl (ha n)
+  | lockAppend _ _ _ _ q _ hq' | lockNew _ _ _ _ q _ hq' => rw [hq] at hq'; cases hq'
+  | wStart _ h | wWake _ h | wSpurious _ h =>
+    rw [relook_of_closed _ hq]
+    intro ws hws
+    rcases mem_set_cases hws with rfl | hws
+    · simp
+    · exact hb _ hws
+  | doneNext i w cb f fs h hp =>
+    intro ws hws
+    rcases mem_set_cases hws with rfl | hws
+    · simp
+    · exact hb _ hws
+  | doneLast i w cb h hp =>
+    rw [relook_of_closed _ (by exact hq)]
+    intro ws hws
+    simp only [setWorker_workers, finish, List.set_set] at hws
+    rcases mem_set_cases hws with rfl | hws
+    · simp
+    · exact hb _ hws
+  | signalSome _ _ _ _ i _ hi =>
+    intro ws hws
+    rcases mem_set_cases hws with rfl | hws
+    · simp
+    · exact hb _ hws
+  | closeBroadcast =>
+    intro ws hws
+    simp only [broadcast, List.mem_map] at hws
+    obtain ⟨x, _, rfl⟩ := hws
+    cases x <;> simp
+  | _ => exact hb
 
 /-- **restart**: a stopped service can be served again, with a fresh open queue and `n` new workers;
 all invariants of C01/C02 are stated for every reachable state, so they hold again after it -/
 theorem restart (acts : List Act) (s : St) (h : run init acts = some s) (hp : s.phase = .stopped) (n : Nat) :
     ∃ s', step s (.serve n) = some s' ∧ s'.phase = .started ∧ s'.wq = some [] ∧ s'.rwork = [] ∧
       s'.workers = List.replicate n .idle := by
-  sorry
+  have hq := (Inv.reachable h).quiet hp
+  exact ⟨served s n, by rw [step_serve, if_pos ⟨hp, hq.2⟩]; rfl, rfl, rfl, rfl, rfl⟩
 
 /-! ## the window the fix closed, as a concrete schedule: a submission passes the state check,
 `Shutdown` closes the queue while a worker is busy, then the submission takes the lock — it is
